@@ -218,8 +218,36 @@ def classify(h, parsed):
     return "held", [], det
 
 
+SLOTS = int(os.environ.get("VERIF_SLOTS", "14"))
+
+
+def acquire_slot():
+    """System-wide cap on concurrently running solver jobs (flock on /verif/.cache/slots/<i>), so that
+    several checks started in parallel share the machine instead of oversubscribing its memory."""
+    import fcntl
+    d = os.path.join(CACHE, "slots")
+    os.makedirs(d, exist_ok=True)
+    while True:
+        for i in range(SLOTS):
+            f = open(os.path.join(d, "%d.lock" % i), "w")
+            try:
+                fcntl.flock(f, fcntl.LOCK_EX | fcntl.LOCK_NB)
+                return f
+            except OSError:
+                f.close()
+        time.sleep(0.5)
+
+
 def decide(h, workdir, solver, timeout, mem_gb, extra_flags):
     """link + instrument + cbmc for one harness.  Returns result dict."""
+    slot = acquire_slot()
+    try:
+        return decide_locked(h, workdir, solver, timeout, mem_gb, extra_flags)
+    finally:
+        slot.close()
+
+
+def decide_locked(h, workdir, solver, timeout, mem_gb, extra_flags):
     tag = "%s.%s.%s" % (h["short"], h["geo"], solver)
     out = os.path.join(workdir, tag + ".goto")
     logf = os.path.join(workdir, tag + ".log")
